@@ -22,6 +22,7 @@ type Scenario struct {
 	Writer      WriterSpec   `json:"writer"`
 	LogErr      bool         `json:"log_err,omitempty"`     // dag.Logger's sink fails every write
 	LogDiscard  bool         `json:"log_discard,omitempty"` // dag.Logger writes to io.Discard
+	DFSOnly     bool         `json:"dfs_only,omitempty"`    // the graph is only built, validated and sorted, never run (very deep graphs)
 	Policy      simrt.Policy `json:"policy"`
 	MapBase     string       `json:"map_base,omitempty"`
 	ChSeed      uint64       `json:"chooser_seed"`
@@ -80,7 +81,7 @@ type TaskSpec struct {
 
 type AttemptSpec struct {
 	Dur    int    `json:"dur"`              // simulated duration in poll ticks
-	Res    string `json:"res"`              // ok | err | skip | skipw | skipj | skipm | skipis (ErrorSkipParents itself / wrapped with %w / inside errors.Join / one of two %w / through an Is method) | errs0 | errs1 (the task returns a *dag.Errors value: empty / with one entry) | errctx (an error wrapping context.DeadlineExceeded: the task's own timeout)
+	Res    string `json:"res"`              // ok | err | skip | skipw | skipj | skipm | skipis (ErrorSkipParents itself / wrapped with %w / inside errors.Join / one of two %w / through an Is method) | errs0 | errs1 (the task returns a *dag.Errors value: empty / with one entry) | errctx (an error wrapping context.DeadlineExceeded: the task's own timeout) | errsk (an error wrapping dag.ErrorTaskSkipped, forwarded from a nested graph's report)
 	Chunks int    `json:"chunks,omitempty"` // output chunks written when buffering is on
 	Big    bool   `json:"big,omitempty"`    // the first chunk carries 70 KiB of padding (more than any sane internal buffer limit)
 	Cancel string `json:"cancel,omitempty"` // "", entry, exit: call cancel() there
@@ -168,6 +169,7 @@ type CancelSpec struct {
 type WriterSpec struct {
 	Yield   bool   `json:"yield,omitempty"`    // the output sink yields inside Write
 	ErrFrom int    `json:"err_from,omitempty"` // k>0: from the k-th Write on the sink rejects everything (closed pipe)
+	ErrOnly int    `json:"err_only,omitempty"` // k>0: the k-th Write alone is rejected (a hiccup), the following ones work again
 	Locker  string `json:"locker,omitempty"`   // "": a plain io.Writer; "mutex": Write takes an embedded mutex, so the sink also has Lock/Unlock; "noop": Lock/Unlock exist and do nothing (noCopy marker)
 }
 
@@ -577,7 +579,7 @@ func genAttempts(r *simrt.RNG, retries int, faulty bool, faultP int, buffer bool
 				a.Res = []string{"skipj", "skipm", "skipis"}[r.Intn(3)]
 			}
 			if r.Intn(10) == 0 {
-				a.Res = []string{"errs0", "errs1", "errctx", "errctx"}[r.Intn(4)]
+				a.Res = []string{"errs0", "errs1", "errctx", "errctx", "errsk"}[r.Intn(5)]
 			}
 		}
 		if buffer {
@@ -619,6 +621,14 @@ func Generate(seed uint64, o GenOpts) *Scenario {
 		sc.N = 64 + r.Intn(120)
 		sc.Family = "forest"
 	}
+	// a dependency chain a thousand tasks deep: only built, validated and sorted (running it would
+	// cost as much as a thousand ordinary scenarios) - what only matters beyond some DEPTH
+	deep := !huge && r.Intn(4000) == 0
+	if deep {
+		huge = true
+		sc.N = 1030 + r.Intn(80)
+		sc.DFSOnly = true
+	}
 	sc.ChSeed = r.Uint64()
 	sc.Policy, sc.MapBase = genPolicy(r)
 	sc.TickNS = tickChoices[r.Intn(len(tickChoices))]
@@ -636,6 +646,9 @@ func Generate(seed uint64, o GenOpts) *Scenario {
 	}
 	if huge {
 		sc.Family = []string{"forest", "flat", "chain"}[r.Intn(3)]
+	}
+	if deep {
+		sc.Family = "chain"
 	}
 	deps := genEdges(r, sc.N, sc.Family)
 
@@ -687,6 +700,8 @@ func Generate(seed uint64, o GenOpts) *Scenario {
 		sc.Writer.Yield = r.Intn(4) != 0
 		if r.Intn(12) == 0 {
 			sc.Writer.ErrFrom = 1 + r.Intn(4)
+		} else if r.Intn(12) == 0 {
+			sc.Writer.ErrOnly = 1 + r.Intn(4)
 		}
 		sc.OuterBuf = r.Intn(8) == 0
 	}
